@@ -439,13 +439,20 @@ def explore(fn, V, opts=None, known=()):
         total += 1
         try:
             try:
-                r = fn(V)
-                if r is not None:
-                    V.check(r, 'result')
+                try:
+                    r = fn(V)
+                    if r is not None:
+                        V.check(r, 'result')
+                except Exception as e:          # not BaseException: engine control flow passes through
+                    import traceback
+                    tb = traceback.format_exc(limit=-6)
+                    V.check(False, 'exception:' + type(e).__name__, note=tb[-1500:])
                 st.paths += 1
                 if c.ndec or V._nontrivial:
                     st.nontrivial_paths += 1
-                if len(res.witnesses) < witness_cap or (st.paths % 97 == 0 and len(res.witnesses) < 4 * witness_cap):
+                if getattr(V, '_path_violated', False):
+                    pass
+                elif len(res.witnesses) < witness_cap or (st.paths % 97 == 0 and len(res.witnesses) < 4 * witness_cap):
                     try:
                         m = c.ensure_model()
                         res.witnesses.append(dict(values=c.values(m), tags=dict(c.tags), nchecks=V._nchecks))
